@@ -67,8 +67,58 @@ def base_pair(family, n, seed):
         raise ValueError(family)
     r1 = a + _cloud(n, 0.2, seed, 13)
     r2 = b * np.array([1.0, 1.0, 1.0]) + _cloud(n, 0.05, seed, 19)
-    refs = np.stack([a, r1, r2])
+    # refs[3]: the target base itself (rounded to float32 like the target frames are): every target frame is then
+    # a rigidly moved copy of this reference frame -- an EXACT one for the cube rotations at zero translation and
+    # zero offset (signed permutations of float32 numbers), so exactly degenerate optimal rotations (half-turns
+    # about x, y, z and the face diagonals, quaternions (0,1,0,0), (0,0,1,0), (0,0,0,1), ...) occur.
+    b32 = np.asarray(b, dtype=np.float32).astype(np.float64)
+    refs = np.stack([a, r1, r2, b32])
     return refs, b, dict(offset=off)
+
+
+EXACT_REF_FRAME = 3
+DIMER_LAYOUTS = ["blocks", "interleaved"]
+DIMER_AXES = ["x", "y", "z"]
+DIMER_CENTRES = [(0.0, 0.0, 0.0), (0.5, -0.25, 0.75)]          # exactly representable
+_HALF_TURN = {"x": np.diag([1.0, -1.0, -1.0]), "y": np.diag([-1.0, 1.0, -1.0]), "z": np.diag([-1.0, -1.0, 1.0])}
+N_DECOY_DIMER = 3
+
+
+def c2_dimer(n, layout, seed):
+    """C2-symmetric dimers: subunit A (n atoms, coordinates on a 2^-14 nm grid so that all arithmetic below is exact
+    in float32) and subunit B = exact half-turn image of A about the x, y or z axis through a centre.
+
+    -> dict(xyz float32 (F, 2n+3, 3): frames = translation x centre x axis; frames with translation 0 hold exact
+            images, the others are the same frame shifted as a whole (rounded);
+            labels [(axis, centre_index, translation)], idxA, idxB (atom k of B is the image of atom k of A),
+            ai / rai: index lists as passed to the API (B for the target, A for the reference), n_exact)"""
+    q = 2.0 ** -14
+    A = np.round(_cloud(n, _edge(n), seed, 0) / q) * q
+    dec = np.round((_cloud(N_DECOY_DIMER, _edge(n), seed, 53) + np.array([0.0, 0.0, 1.5 * _edge(n)])) / q) * q
+    nt = 2 * n + N_DECOY_DIMER
+    if layout == "blocks":
+        idxA, idxB = np.arange(n), np.arange(n, 2 * n)
+        ai, rai = idxB.copy(), idxA.copy()
+    elif layout == "interleaved":
+        idxA, idxB = np.arange(0, 2 * n, 2), np.arange(1, 2 * n, 2)
+        ai, rai = idxB[::-1].copy(), idxA[::-1].copy()         # listed backwards on both sides
+    else:
+        raise ValueError(layout)
+    frames, labels = [], []
+    for t in TRANSLATIONS:
+        tv = np.array([t, -t, t])
+        for ci, c in enumerate(DIMER_CENTRES):
+            c = np.array(c)
+            for ax in DIMER_AXES:
+                B = (A - c) @ _HALF_TURN[ax] + c
+                x = np.empty((nt, 3))
+                x[idxA], x[idxB], x[2 * n:] = A, B, dec
+                frames.append(x + tv)
+                labels.append((ax, ci, t))
+    xyz = np.asarray(frames, dtype=np.float32)
+    n_exact = len(DIMER_CENTRES) * len(DIMER_AXES)
+    assert np.array_equal(xyz[:n_exact].astype(np.float64), np.asarray(frames[:n_exact])), "dimer not exact in float32"
+    return dict(xyz=xyz, labels=labels, idxA=idxA, idxB=idxB, ai=ai, rai=rai, n_exact=n_exact)
 
 
 def target_frames(b, rots, transl, offset):
